@@ -57,6 +57,8 @@ package module
 //@ ghost var gAcc Map[ref,Set[string]]
 //@ ghost var gBodyErr Map[ref,error]
 //@ ghost var gCommitted Set[ref]
+// gCommitFailed: deliveries whose Commit returned an error (closed; a following Abort is tolerated, as emitDSN does).
+//@ ghost var gCommitFailed Set[ref]
 //@ extern func (Delivery).AddRcpt(d Delivery, ctx context.Context, rcptTo string, opts smtp.RcptOptions) error
 //@   requires[C01,C03,C09,C18] gOpen[refOf(d)]
 //@   modifies gAcc
@@ -67,14 +69,15 @@ package module
 //@   modifies gBodyErr
 //@   ensures gBodyErr == store(old(gBodyErr), refOf(d), result)
 //@ extern func (Delivery).Abort(d Delivery, ctx context.Context) error
-//@   requires[C01,C03,C09,C18] gOpen[refOf(d)]
-//@   modifies gOpen
-//@   ensures gOpen == store(old(gOpen), refOf(d), false)
+//@   requires[C01,C03,C09,C18] gOpen[refOf(d)] || gCommitFailed[refOf(d)]
+//@   modifies gOpen, gCommitFailed
+//@   ensures gOpen == store(old(gOpen), refOf(d), false) && gCommitFailed == store(old(gCommitFailed), refOf(d), false)
 //@ extern func (Delivery).Commit(d Delivery, ctx context.Context) error
 //@   requires[C01,C03,C09,C18] gOpen[refOf(d)]
-//@   modifies gOpen, gCommitted
+//@   modifies gOpen, gCommitted, gCommitFailed
 //@   ensures gOpen == store(old(gOpen), refOf(d), false)
 //@   ensures gCommitted == store(old(gCommitted), refOf(d), result == nil)
+//@   ensures gCommitFailed == store(old(gCommitFailed), refOf(d), result != nil)
 // BodyNonAtomic reports per-recipient failures through the collector; what a caller may assume about its own
 // collector is stated with the caller (contract "<caller>#BodyNonAtomic$call").
 //@ extern func (PartialDelivery).BodyNonAtomic(d PartialDelivery, ctx context.Context, c StatusCollector, header textproto.Header, body buffer.Buffer)
@@ -107,3 +110,7 @@ package module
 //@   ensures (result.OriginalRcpts == nil) == (msgMeta.OriginalRcpts == nil)
 //@   ensures msgMeta.OriginalRcpts != nil ==> result.OriginalRcpts != msgMeta.OriginalRcpts && fresh(result.OriginalRcpts)
 //@   ensures forall k string :: has(result.OriginalRcpts, k) == has(msgMeta.OriginalRcpts, k) && result.OriginalRcpts[k] == msgMeta.OriginalRcpts[k]
+
+// GenerateMsgID reads the system random source; it changes nothing the contracts talk about.
+//@ func GenerateMsgID
+//@   prop C18
